@@ -11,10 +11,11 @@
   double from the integers and the start offset (driver field `arith`).  The line must be byte-identical.
 Imported by tools/props/c14.py.
 """
-import math, struct, time
+import decimal, math, re, struct, time
 import vlib
 
 MASK = (1 << 64) - 1
+NUMTEXT = re.compile(r"-?[0-9]+\.[0-9]+\Z")
 
 
 def d2b(x):
@@ -217,6 +218,19 @@ def line_compare(cases, driver_line, unhex):
                     if text != "%d.%03d" % (k // 1000, k % 1000):
                         exact_bad.append({"what": f"{n}/{fr} s is exactly {k} ms but the line says {text} ({key})",
                                           "call": f"json start={d.start!r} level={d.level} frate={d.frate}"})
+    # conclusion of C14_begin_fields_monotone evaluated on the C text: within one line (one start offset, one frame
+    # rate) the printed begin decimals are non-decreasing in the frame number (frames >= 0)
+    for d, table in cases:
+        if d.ret != "ok":
+            continue
+        ts = sorted((int(k.split(":")[1]), decimal.Decimal(v)) for k, v in table.items()
+                    if k.startswith("T:") and int(k.split(":")[1]) >= 0 and int(k.split(":")[2]) >= 1
+                    and NUMTEXT.match(v))
+        for (fa, ta), (fb, tb) in zip(ts, ts[1:]):
+            stats["monotone_begin_pairs_checked"] = stats.get("monotone_begin_pairs_checked", 0) + 1
+            if ta > tb:
+                exact_bad.append({"what": f"begin field goes backwards: frame {fa} prints {ta}, frame {fb} prints {tb}",
+                                  "call": f"json start={d.start!r} level={d.level} frate={d.frate}"})
     lines = []
     for d, _ in cases:
         table = {k: struct.pack(">Q", v).decode("latin-1") for k, v in d.bits.items()}
